@@ -211,17 +211,46 @@ const MAX_STACK: usize = 120;
 
 /// C01 + C16: load, evaluate, manifest through `Program` (structured errors: every span inside its
 /// source) and again through `Session` (rendered diagnostics, plain and coloured, cropped traces).
+/// The one open known finding that a byte-level fuzzer re-discovers every few seconds (known_findings.json,
+/// C01-/C16-sourceannot-zero-width-span).  When the driver says that entry is still open
+/// (VERIF_FUZZ_SWALLOW_KNOWN=1) a panic with exactly this location and message is allowed to unwind and is
+/// swallowed by `pipeline`; every other panic aborts as usual and becomes an artifact.
+fn install_hook_once() {
+    use std::sync::Once;
+    static ONCE: Once = Once::new();
+    ONCE.call_once(|| {
+        if std::env::var("VERIF_FUZZ_SWALLOW_KNOWN").as_deref() != Ok("1") {
+            return;
+        }
+        let prev = std::panic::take_hook();
+        std::panic::set_hook(Box::new(move |info| {
+            let msg = if let Some(s) = info.payload().downcast_ref::<&str>() {
+                (*s).to_string()
+            } else if let Some(s) = info.payload().downcast_ref::<String>() {
+                s.clone()
+            } else {
+                String::new()
+            };
+            let known = info.location().is_some_and(|l| l.file().contains("sourceannot-") && l.file().ends_with("/src/annots.rs"))
+                && msg.contains("annot.span.end_col > annot.span.start_col");
+            if !known {
+                prev(info);
+            }
+        }));
+    });
+}
+
 pub fn pipeline(data: &[u8]) {
+    install_hook_once();
     // a generous native stack: inputs are at most a few KiB, so nesting depth is bounded by the input length and
     // the known finding "native stack overflow of the recursive-descent parser on 5000+ levels" stays out of reach
     let data: Vec<u8> = data.to_vec();
     let h = std::thread::Builder::new()
-        .stack_size(96 << 20)
+        .stack_size(std::env::var("VERIF_FUZZ_STACK_MB").ok().and_then(|s| s.parse::<usize>().ok()).unwrap_or(48) << 20)
         .spawn(move || pipeline_inner(&data))
         .expect("spawn");
-    if let Err(e) = h.join() {
-        std::panic::resume_unwind(e);
-    }
+    // only the swallowed known finding can get here: any other panic aborted inside the hook
+    let _ = h.join();
 }
 
 fn pipeline_inner(data: &[u8]) {
